@@ -11,7 +11,7 @@ THEOREMS = ["IsoVerif.Props.C20." + t for t in (
     "C20_fixed_witness_F10", "C20_fixed_witness_events")]
 HARNESS = ("hx_watch", {"HX_ENGINE": "watch"})
 DRIVER = "drv_watch"
-CASES = {"quick": 400, "thorough": 20000}
+CASES = {"quick": 400, "thorough": 12000}
 TECHNIQUE = ("Lean 4 refinement theorems over an executable model of the watch-mode source database (event categorisation of watch.rs, update_sources and its handlers, "
              "initialize_sources, the filters of read_files.rs; the literals and six repaired decision points regenerated from the Rust source on every run) + differential "
              "correspondence against the REAL categorize_and_filter_events / update_sources / compile in one CompilerState on a generated project in a temp directory, with a fresh "
@@ -51,10 +51,6 @@ def run(ctx):
     return core.standard_run(ctx)
 
 
-def _steps(impl):
-    return [f for f in impl.split(" ") if f.startswith("ev:")]
-
-
 def nontrivial(req, impl):
     """at least one batch reached update_sources and was compared with a fresh compile"""
     return "us:ok" in impl and " A:" in impl
@@ -80,10 +76,10 @@ def classify(req, impl):
         if len(parts) == 3:
             for e in parts[1].split(";"):
                 raw.add(e.split(":")[0])
-            if parts[2] == "g":
+            if parts[2] == "g" and "gc" not in out:
                 out.append("gc")
     out += ["raw=" + k for k in sorted(raw) if k != "-"]
-    if any(("=b" in st.split("|")[0]) for st in r[3:]):
+    if any((":b" in st.split("|")[0] or "+b" in st.split("|")[0]) for st in r[3:]):
         out.append("non-utf8-written")
     if "us:ok" in f:
         out.append("recompiled")
